@@ -352,8 +352,8 @@ class Job(Resource):
         logger.debug("Job %s: unsatisfied %d", self, self.unsatisfied)
 
         if status == DependencyStatus.FAIL:
-            # Job completed
-            if not self.state.finished():
+            # Job cancelled (unless its process is running or it has finished)
+            if self.state.notstarted():
                 self.state = JobState.ERROR
                 self.failure_status = JobFailureStatus.DEPENDENCY
                 self._readyEvent.set()
